@@ -389,7 +389,9 @@ pub(crate) fn items(thorough: bool) -> Vec<Item> {
     });
     // two peers at different heights; the LOWER one grows block by block (the child shortcut of a
     // proven state) while the higher one stays: the stored tip must stay the higher peer's
-    for (name, lag, steps) in [("lagging-peer-steps", 9u64, vec![10u64, 11]), ("lagging-peer-steps-near", 11, vec![12])] {
+    // (steps by one block: the child shortcut; jumps by 2: a short proof; by 8: a sampled proof -
+    // always to a block below the higher peer's)
+    for (name, lag, steps) in [("lagging-peer-steps", 9u64, vec![10u64, 11]), ("lagging-peer-steps-near", 11, vec![12]), ("lagging-peer-jumps", 6, vec![8u64, 10]), ("lagging-peer-jumps-sampled", 2, vec![10u64])] {
         v.push(Item {
             name: name.into(),
             chain_len: 30,
